@@ -624,10 +624,10 @@ fn nontrivial_c16(c: &Case, r: &RunResult) -> bool {
 
 pub fn prop_def5(id: &str) -> Option<PropDef> {
     match id {
-        "C05" => Some(PropDef { id: "C05", generate: gen_c05, check: check_c05, nontrivial: nontrivial_tables, project: ident, deadline_ms: 20000 }),
-        "C06" => Some(PropDef { id: "C06", generate: gen_c06, check: check_c06, nontrivial: nontrivial_tables, project: ident, deadline_ms: 20000 }),
-        "C07" => Some(PropDef { id: "C07", generate: gen_c07, check: check_c07, nontrivial: nontrivial_c07, project: ident, deadline_ms: 20000 }),
-        "C16" => Some(PropDef { id: "C16", generate: gen_c16, check: check_c16, nontrivial: nontrivial_c16, project: ident, deadline_ms: 20000 }),
+        "C05" => Some(PropDef { id: "C05", generate: gen_c05, check: check_c05, nontrivial: nontrivial_tables, project: ident, deadline_ms: 20000, check_model: None }),
+        "C06" => Some(PropDef { id: "C06", generate: gen_c06, check: check_c06, nontrivial: nontrivial_tables, project: ident, deadline_ms: 20000, check_model: None }),
+        "C07" => Some(PropDef { id: "C07", generate: gen_c07, check: check_c07, nontrivial: nontrivial_c07, project: ident, deadline_ms: 20000, check_model: None }),
+        "C16" => Some(PropDef { id: "C16", generate: gen_c16, check: check_c16, nontrivial: nontrivial_c16, project: ident, deadline_ms: 20000, check_model: None }),
         _ => None,
     }
 }
